@@ -1,13 +1,60 @@
-/- line-protocol handlers of the "latent" family (stub: filled in by the family's model) -/
+/- line-protocol handlers of the "latent" family (C16): LV-DAG conversion and Evans simplification -/
 import Y0.Model.Graph
-import Y0.Model.Expr
+import Y0.Model.Latent
 import Y0.Driver.Graph
 
 namespace Y0.Driver
 open Y0 Sexp
 
-def handleLatent (op : String) (args : List Sexp) : Option Sexp :=
+/-- `(lv (nodes…) ((u v)…) (latent…) (untagged…))`; node and edge lists are taken in insertion order,
+repeated entries are ignored the way `add_node` / `add_edge` ignore them -/
+def parseLV : Sexp → Option LV
+  | .list [.atom "lv", ns, es, ls, us] => do
+      let ns ← asNats? ns
+      let es ← asPairs? es
+      let ls ← asNats? ls
+      let us ← asNats? us
+      let ns := dedup' (ns ++ es.flatMap (fun e => [e.1, e.2]))
+      pure { nodes := ns, edges := dedup' es, latent := dedup' (ls.filter (· ∈ ns)),
+             untagged := dedup' (us.filter (fun n => n ∈ ns ∧ n ∉ ls)) }
+  | _ => none
+
+def lvToSexp (D : LV) : Sexp :=
+  tagged "lv" [ofNats D.nodes, pairsToSexp D.edges, ofNats D.latent, ofNats D.untagged]
+
+/-- naming table sent by the harness: the i-th entry is the name of `u_i` -/
+def freshOf (tbl : List Nat) (i : Nat) : Nat :=
+  match tbl[i]? with
+  | some n => n
+  | none => 1000000 + i
+
+/-- naming table sent by the harness: `(v v')` pairs, `v'` the name of `v_prime` -/
+def primeOf (tbl : List (Nat × Nat)) (v : Nat) : Nat :=
+  match tbl.lookup v with
+  | some n => n
+  | none => 2000000 + v
+
+def resultsToSexp (r : LV.SimplifyResults) : Sexp :=
+  .list [lvToSexp r.graph, ofNats r.widows, ofNats r.unidirectional, ofNats r.redundant]
+
+def handleLatent (op : String) (args : List Sexp) : Option Sexp := do
   match op, args with
+  | "to_lv", [g, fr] =>
+      pure (tagged "ok" [lvToSexp (LV.ofMG (freshOf (← asNats? fr)) (← parseGraph g))])
+  | "from_lv", [d] => pure (exceptToSexp graphToSexp (← parseLV d).toMG?)
+  | "roundtrip", [g, fr] =>
+      let D := LV.ofMG (freshOf (← asNats? fr)) (← parseGraph g)
+      pure (exceptToSexp (fun G => .list [lvToSexp D, graphToSexp G]) D.toMG?)
+  | "simplify", [d, pr] =>
+      pure (exceptToSexp resultsToSexp ((← parseLV d).simplify (primeOf (← asPairs? pr))))
+  | "transform", [d, pr] =>
+      pure (exceptToSexp lvToSexp ((← parseLV d).transformLatentsWithParents (primeOf (← asPairs? pr))))
+  | "widows", [d] => pure (exceptToSexp (fun r => lvToSexp r.1) (← parseLV d).removeWidowLatents)
+  | "unidirectional", [d] => pure (exceptToSexp (fun r => lvToSexp r.1) (← parseLV d).removeUnidirectionalLatents)
+  | "redundant", [d] => pure (exceptToSexp (fun r => lvToSexp r.1) (← parseLV d).removeRedundantLatents)
+  | "evans", [g, ex, fr, pr] =>
+      pure (exceptToSexp graphToSexp
+        (LV.evansSimplify (freshOf (← asNats? fr)) (primeOf (← asPairs? pr)) (← parseGraph g) (← asNats? ex)))
   | _, _ => none
 
 end Y0.Driver
